@@ -17,5 +17,6 @@ def run(ctx):
     pepsolve.r_ret(ctx)
     pepsolve.r_primalflow(ctx)
     wrappers.r_heur(ctx)
+    wrappers.r_mainvars(ctx)
     c16.r_options(ctx)
     ctx.floor("heuristic call sites", n, 3)
